@@ -50,3 +50,41 @@ func ZZ_C08_ACLCheckAgreesWithDial() {
 		verifCover("allowed")
 	}
 }
+
+// name resolution as the resolver outbounds see it: a fixed table
+//
+//verif:model net.LookupIP
+func zzModelLookupIP(host string) ([]net.IP, error) {
+	switch host {
+	case "inside.example":
+		return []net.IP{net.IPv4(10, 9, 9, 9)}, nil
+	case "outside.example":
+		return []net.IP{net.IPv4(192, 0, 2, 9)}, nil
+	}
+	if ip := net.ParseIP(host); ip != nil {
+		return []net.IP{ip}, nil
+	}
+	return nil, errors.New("no such host")
+}
+
+// The pipeline the application builds - a resolver outbound in front of the
+// ACL outbound - answers the per-datagram question as it answers the dial, for
+// destinations given by NAME as well: a name that resolves into a rejected
+// range is rejected by CheckUDP exactly as by UDP.
+//
+//verif:harness kind=api replay=interp unwind=200 bound=system-resolver+ACL,4-destinations(by-name-and-by-address),port:any
+func ZZ_C08_ResolverPipelineCheckAgreesWithDial() {
+	open := &zzOpenOutbound{}
+	eng, err := NewACLEngineFromString("reject(10.0.0.0/8)\nreject(all, udp/161)\nopen(all)\n",
+		[]OutboundEntry{{Name: "open", Outbound: open}}, nil)
+	verifAssert(err == nil, "the rule list compiles")
+	pipe := NewSystemResolver(eng)
+	host := []string{"inside.example", "outside.example", "10.1.2.3", "unknown.example"}[verifChoice("host", 4)]
+	port := verifUint16("port")
+	_, dialErr := pipe.UDP(&AddrEx{Host: host, Port: port})
+	checkErr := pipe.CheckUDP(&AddrEx{Host: host, Port: port})
+	verifAssert((dialErr != nil) == (checkErr != nil), "through the resolver, CheckUDP rejects exactly the destinations whose dial is rejected")
+	want := host == "inside.example" || host == "10.1.2.3" || port == 161
+	verifAssert((checkErr != nil) == want, "and both follow the rule list on the resolved address")
+	verifCover("pipeline")
+}
